@@ -21,6 +21,10 @@ representation*/
 #define MAX_OPD 5
 #define MAX_LINE_LEN 100
 #define OBJDUMP_MAX_LINE_LEN 7
+// upper bound for what assemble_asm() can emit for any instruction record:
+// 2 prefixes, 11 opcode bytes, SIB, 5 displacement, 5 memory constant and
+// 9 immediate bytes
+#define MAX_ASSEMBLED_LEN 64
 #include "parser.h"
 #include "assembler.h"
 #include "encoder.h"
@@ -259,6 +263,24 @@ static int check_len_or_resize(assemblyline_t al, int buf_pos) {
 }
 
 /**
+ * assembles @param new_instr and copies its machine code to @param dest,
+ * storing the number of bytes in @param written_length. Fails without writing
+ * to @param dest when the code is longer than the BUFFER_TOLERANCE bytes that
+ * check_len_or_resize() keeps in reserve (no x86 instruction is that long)
+ */
+static int assemble_within_reserve(struct instr *new_instr, uint8_t *dest,
+                                   unsigned int *written_length) {
+
+  uint8_t code[MAX_ASSEMBLED_LEN];
+  *written_length = assemble_asm(new_instr, code);
+  FAIL_IF_VAR(*written_length > BUFFER_TOLERANCE,
+              "machine code of %u bytes exceeds the reserved space\n",
+              *written_length);
+  memcpy(dest, code, *written_length);
+  return EXIT_SUCCESS;
+}
+
+/**
  * given and instance of @param al write the machine code of @param new_instr
  * into @param buf_pos while counting the number of instructions that break a
  * chunk boundary, storing the number of breaks into @param chunk_brks
@@ -269,7 +291,9 @@ static int assemble_counting_chunks(assemblyline_t al, struct instr *new_instr,
   FAIL_IF_MSG(chunk_brks == NULL, "chunk_brks ptr cannot be NULL\n");
   FAIL_IF(check_len_or_resize(al, *buf_pos));
   unsigned int free_space = al->chunk_size - (*buf_pos % al->chunk_size);
-  unsigned int written_length = assemble_asm(new_instr, al->buffer + *buf_pos);
+  unsigned int written_length = 0;
+  FAIL_IF(assemble_within_reserve(new_instr, al->buffer + *buf_pos,
+                                  &written_length));
   // check if the current instruction machine code crosses the chunk boundary
   if (written_length > free_space)
     (*chunk_brks)++;
@@ -287,7 +311,9 @@ static int assemble(assemblyline_t al, struct instr *new_instr,
                     unsigned int *buf_pos) {
 
   FAIL_IF(check_len_or_resize(al, *buf_pos));
-  unsigned int written_length = assemble_asm(new_instr, al->buffer + *buf_pos);
+  unsigned int written_length = 0;
+  FAIL_IF(assemble_within_reserve(new_instr, al->buffer + *buf_pos,
+                                  &written_length));
   if (al->debug)
     debug_without_chunksize(written_length, al->buffer + *buf_pos);
   *buf_pos += written_length;
@@ -309,7 +335,9 @@ static int assemble_with_chunk_fitting(assemblyline_t al,
     FAIL_IF(check_len_or_resize(al, *buf_pos));
     // check the number of bytes available in chunk
     size_t free_chunk_space = al->chunk_size - (*buf_pos % al->chunk_size);
-    size_t written_length = assemble_asm(new_instr, al->buffer + *buf_pos);
+    unsigned int written_length = 0;
+    FAIL_IF(assemble_within_reserve(new_instr, al->buffer + *buf_pos,
+                                    &written_length));
     // write machine code to memory if there is sufficient chunk space
     if (written_length <= free_chunk_space ||
         written_length >= al->chunk_size ||
